@@ -13,7 +13,7 @@ for d in seeded/*${ONLY:-}*/; do
   props=$prop; [ "$1" = "all" ] && props=$ALL
   tools/try_seed.sh $d $props > /tmp/try/matrix.$name.log 2>&1
   pre=$(grep -c "as required" /tmp/try/matrix.$name.log)
-  grep "^check " /tmp/try/matrix.$name.log | while read _ p _ code rest; do
+  grep "^check " /tmp/try/matrix.$name.log | while read -r _ p _ code rest; do
     printf "%s\t%s\t%s\t%s\t%s\n" "$name" "${p%:}" "$code" "$pre/3 preconditions" "$(echo "$rest" | cut -c1-160)" >> $OUT.tmp
   done
 done
